@@ -791,22 +791,44 @@ class Interp:
             lo, hi = bounds[2 * i], bounds[2 * i + 1]
             if isinstance(lo, int) and isinstance(hi, int) and lo >= hi:
                 return z3.BoolVal(which == 'forall')
-        vars_ = []
-        rng = []
-        sub = Frame(fr.func, fr.module, {}, cls=fr.cls, parent=fr)
-        for i, n in enumerate(names):
-            v = z3.Int(self.p.fresh_name('q_' + n))
-            vars_.append(v)
-            sub.locals[n] = Sym(INT, v)
-            rng.append(z3.And(self.term(bounds[2 * i]) <= v, v < self.term(bounds[2 * i + 1])))
-        self.noforking += 1
-        try:
-            body = self.formula(lam.body, sub)
-        finally:
-            self.noforking -= 1
-        if which == 'forall':
-            return z3.ForAll(vars_, z3.Implies(z3.And(*rng), body))
-        return z3.Exists(vars_, z3.And(*rng, body))
+        # variables with concrete bounds are expanded (finite conjunction / disjunction); the others are quantified
+        conc = [i for i in range(len(names)) if isinstance(bounds[2 * i], int) and isinstance(bounds[2 * i + 1], int)]
+        import itertools
+        size = 1
+        for i in conc:
+            size *= max(0, bounds[2 * i + 1] - bounds[2 * i])
+        if size > 256:
+            conc = []
+        symb = [i for i in range(len(names)) if i not in conc]
+        results = []
+        for combo in itertools.product(*[range(bounds[2 * i], bounds[2 * i + 1]) for i in conc]):
+            vars_ = []
+            rng = []
+            sub = Frame(fr.func, fr.module, {}, cls=fr.cls, parent=fr)
+            for i, val in zip(conc, combo):
+                sub.locals[names[i]] = val
+            for i in symb:
+                n = names[i]
+                v = z3.Int(self.p.fresh_name('q_' + n))
+                vars_.append(v)
+                sub.locals[n] = Sym(INT, v)
+                rng.append(z3.And(self.term(bounds[2 * i]) <= v, v < self.term(bounds[2 * i + 1])))
+            self.noforking += 1
+            try:
+                body = self.formula(lam.body, sub)
+            finally:
+                self.noforking -= 1
+            if not vars_:
+                results.append(body)
+            elif which == 'forall':
+                results.append(z3.ForAll(vars_, z3.Implies(z3.And(*rng), body)))
+            else:
+                results.append(z3.Exists(vars_, z3.And(*rng, body)))
+        if not results:
+            return z3.BoolVal(which == 'forall')
+        if len(results) == 1:
+            return results[0]
+        return z3.And(*results) if which == 'forall' else z3.Or(*results)
 
     # ------------------------------------------------------------------ expressions
     def eval(self, node, fr):
